@@ -296,6 +296,13 @@ fn mutating_bodies() -> Vec<(&'static str, String)> {
             v_push(&mut v, b);
         }
     }
+    // a call that runs off the end of its body yields null, whatever the last statement was
+    for body in ["g()", "g()\n", "1 + 2", "x", "[1]", "{\"k\": 1}", "x = 5", "y := 6", "if true {\ng()\n}", "for e in [1] {\ng()\n}", "{\ng()\n}", "print(g())", "fn inner() {\nreturn 3\n}", "g() + g()", "$\"${s}\""] {
+        for head in ["fn f() {", "f := fn () {", "o := {\"f\": fn () {"] {
+            let (close, call) = if head.starts_with("o :=") { ("}}", "o.f()") } else { ("}", "f()") };
+            v_push(&mut v, format!("x := 1\ns := \"s\"\nfn g() {{\nreturn 7\n}}\n{}\n{}\n{}\nr := {}\nprint(r)\nprint([{}])\nprint({} == null)\n", head, body, close, call, call, call));
+        }
+    }
     // the condition of a `while` is evaluated again before every iteration, whatever kind of
     // expression it is
     for cond in [
